@@ -227,7 +227,7 @@ CHECKS['C08'] = {
     'targets': [
         {'name': 'c08_wire', 'src': ['harness/C08_wire.cpp'], 'ccodecs': True, 'quick_n': 1500000, 'thorough_n': 12000000, 'maxlen': 500, 'min_nontrivial': 200000,
          'worker_env': _c08_worker_env, 'post': _c08_post, 'replay_hook': _c08_replay, 'replay_aliases': ['c08_python'],
-         'class_floors': {'case_python_safe': 50000, 'case_nesting_ge_1': 20000, 'case_three_or_more_field_types': 50000, 'emitted_for_python_peer': 20000, 'case_with_zero_length_raw_item': 10000, 'micro_gateway_frame_streams_checked': 100000, 'micro_gateway_stream_with_buffer_full_episodes': 20000, 'message_sized_to_the_scratch_buffer_boundary': 20000}},
+         'class_floors': {'case_python_safe': 50000, 'case_nesting_ge_1': 20000, 'case_three_or_more_field_types': 50000, 'emitted_for_python_peer': 20000, 'case_with_zero_length_raw_item': 10000, 'micro_gateway_frame_streams_checked': 100000, 'micro_gateway_stream_with_buffer_full_episodes': 20000, 'message_sized_to_the_scratch_buffer_boundary': 20000, 'mini_field_renamed_to_a_shorter_name': 50000, 'mini_field_renamed_to_a_longer_name': 20000}},
     ],
 }
 
@@ -274,7 +274,7 @@ CHECKS['C12'] = {
     'evidence_extra': lambda pt: {'exhaustive_fault_plans_enumerated': pt['c12_tunnel']['classes'].get('exhaustive_fault_plans', 0), 'exhaustive_note': 'each exhaustive plan set enumerates all 4^n {deliver,drop,duplicate,swap-with-next} plans of one generated packet sequence (n <= 6); the space of sequences itself is sampled, so exhaustive=false overall'},
     'targets': [
         {'name': 'c12_tunnel', 'src': ['harness/C12_tunnel.cpp'], 'quick_n': 300000, 'thorough_n': 2400000, 'maxlen': 400, 'min_nontrivial': 50000, 'budget': 60,
-         'class_floors': {'mini_tunnel': 20000, 'packet_tunnel': 20000, 'exhaustive_plan_sets': 3000, 'message_id_wraparound': 3000, 'several_senders': 20000, 'with_slave_gateway': 20000, 'mode_fault_free_with_would_block_writes': 10000, 'receiver_on_library_ByteBufferPacketDataIO': 50000, 'mode_packetized_stream_transport': 5000, 'with_raw_data_slave_gateway_several_buffers_per_message': 5000}},
+         'class_floors': {'mini_tunnel': 20000, 'packet_tunnel': 20000, 'exhaustive_plan_sets': 3000, 'message_id_wraparound': 3000, 'several_senders': 20000, 'with_slave_gateway': 20000, 'mode_fault_free_with_would_block_writes': 10000, 'receiver_on_library_ByteBufferPacketDataIO': 50000, 'mode_packetized_stream_transport': 5000, 'with_raw_data_slave_gateway_several_buffers_per_message': 5000, 'case_stream_transport_with_short_writes': 1000, 'case_raw_chunk_larger_than_one_slave_read': 250}},
     ],
 }
 
